@@ -65,6 +65,8 @@ def compare_final(e, s1, s5, tag="", mem5=None):
     if s1.fault is not None and s5.fault is not None:
         e.claim_eq("fault-address", s5.fault.address, s1.fault.address)
         e.claim_eq("fault-repr", s5.fault.instruction_repr, s1.fault.instruction_repr)
+    c1.check_cell_types(e)
+    c5.check_cell_types(e)
     e.claim_eq("registers", c5.reg(q), c1.reg(q))
     e.claim_eq("memory", mem5(qa), c1.mem_byte(qa))
     e.claim_eq("output", st5.output, st1.output)
